@@ -204,7 +204,13 @@ func (s *SweepingProvider) handleProvide(force, reprovide bool, keys ...mh.Multi
   ghostvar $closedNow bool = false
   modifies *
   ghost at before call(Put): assert(reprovide && $arg1 == old(keys))
-  ghost at call(Put): $new = $ret0; $stored = ($ret1 == nil)
+  ghost at call(Put): $new = $ret0; $stored = ($ret1 == nil); $put = true
+  # keys to be reprovided are recorded in the keystore whenever any are given -
+  # ALSO while the node is offline (the schedule refresh after coming back online
+  # works from the keystore: a key dropped here is never advertised)
+  ghostvar $put bool = false
+  ensures [keys-to-reprovide-always-reach-the-keystore] imp(reprovide && len(old(keys)) > 0, $put)
+  ghost at before call(isOffline): assert(imp(reprovide, $put))
   ghost at before call(groupAndScheduleKeysByPrefix): assert(imp(reprovide, $stored) && $arg1 == reprovide && $arg0 == ite(reprovide && !force, $new, old(keys)))
   ghost at before call(Enqueue): assert($arg0 == prefixAndKeys.Prefix && $arg1 == prefixAndKeys.Keys)
   ghost at before call(Add): assert(held(s.wgLk) && $closedSeen && !$closedNow)
